@@ -2163,3 +2163,7 @@ mod tests {
         assert_eq!(result, Some(100));
     }
 }
+
+#[cfg(kani)]
+#[path = "/verif/kani/arrow-arith/aggregate.rs"]
+mod verif_kani;
